@@ -22,7 +22,7 @@ import numpy as np
 from common import *
 import tr_footprint as TR
 
-IMPORTS = "From CV Require Import Base.Tac Base.Cmp Model.C14_Chain Model.C14_Burn."
+IMPORTS = "From CV Require Import Base.Tac Base.Cmp Model.C14_Chain Model.C14_Burn Model.C14_Out."
 RULE = ("one case = one (sampler configuration, operation sequence, random seed): operation sequences enumerate every split "
         "position and every checkpoint position 0..N of the sampling phase (N<=8 quick / <=40 thorough), with and without warm-up, "
         "in-memory and on-disk checkpoints, plus multi-split/multi-resume sequences; stateless interface: all (N, Nb) in a grid for "
@@ -35,6 +35,11 @@ SIG_CWMH = "legacy.CWMH.single_update|mutates-view-of-stored-chain"
 SIG_MHCB = "legacy.MH._sample_adapt|callback-never-invoked"
 SIG_RTO = "RegularizedLinearRTO._choose_stepsize|stepsize=automatic"
 SIG_NUTS = "NUTS.reinitialize|state-key-not-rebound:max_depth"
+SIG_GIBBS_LIVE = "legacy.Gibbs.sample|returns-live-storage"
+
+
+def coq_ll(ll, ids):
+    return clist([czvec([ids(b) for b in l]) for l in ll])
 
 
 # ------------------------------------------------------------------------------------------------------------------
@@ -252,13 +257,94 @@ def tmp_dir():
     return d
 
 
-def run_exp(W, name, x0, ops, seed, variant="mem"):
-    """run an operation sequence on a sampler of the stateful interface; returns the observation"""
+# ---- everything a sampler hands out, kept alive and re-read after every later operation ----------------------------
+def cols(S):
+    """columns (one per sample) of a Samples-like object or array, as byte strings"""
+    if S is None:
+        return []
+    a = np.asarray(S.samples if hasattr(S, "samples") else S, dtype=np.float64)
+    if a.ndim == 1:
+        return [canon(a)]
+    return [canon(a[..., k]) for k in range(a.shape[-1])]
+
+
+def rd_samples(S):
+    a = np.asarray(S.samples if hasattr(S, "samples") else S)
+    return repr(a.shape).encode() + canon(a)
+
+
+def rd_dict(D):
+    return b"|".join(str(k).encode() + b"=" + rd_samples(D[k]) for k in D.keys())
+
+
+def rd_state(P):
+    return json.dumps({k: canon_val(v) for k, v in sorted(P["state"].items())})
+
+
+def rd_list(L):
+    return [canon_val(x) for x in L]
+
+
+def rd_file(path):
+    with open(path, "rb") as fh:
+        return fh.read()
+
+
+class Ledger:
+    """(what, object, reader, bytes when handed out).  recheck() re-reads every object; the first one that changed is
+    remembered together with the operation after which the change was seen.  History lists are live lists by design
+    (get_history returns the list the sampler appends to): for them the entries present at hand-out time must stay a
+    prefix."""
+
+    def __init__(self):
+        self.items, self.bad = [], None
+
+    def give(self, what, obj, reader, prefix=False):
+        self.items.append((what, obj, reader, reader(obj), prefix))
+
+    def recheck(self, after):
+        for what, obj, reader, snap, prefix in self.items:
+            try:
+                now = reader(obj)
+            except Exception as e:
+                now = "unreadable: %r" % (e,)
+            ok = (now[:len(snap)] == snap) if prefix else (now == snap)
+            if not ok and self.bad is None:
+                self.bad = (what, "%s handed out earlier was altered by a later operation (seen after %s)" % (what, after))
+
+
+JUNK = 12345.0
+
+
+def scribble_samples(S):
+    """what a user may do with a chain he was given: write into it"""
+    if S is None:
+        return
+    vals = S.values() if hasattr(S, "values") and not hasattr(S, "samples") else [S]
+    for v in vals:
+        a = v.samples if hasattr(v, "samples") else v
+        if isinstance(a, np.ndarray) and a.size:
+            a[...] = JUNK
+
+
+def run_exp(W, name, x0, ops, seed, variant="mem", ledger=None):
+    """run an operation sequence on a sampler of the stateful interface; returns the observation.
+    variant: mem (deep-copied get_state payload) | live (payload handed over as is) | file (save/load_checkpoint),
+    optionally +scribble (the user writes into a get_samples() result after every operation)"""
+    scribble = variant.endswith("+scribble")
+    variant = variant.split("+")[0]
     stream = Stream(seed)
-    cb, tunes, st = [], [], {"base": 0}
+    cb, cbrefs, tunes, st = [], [], [], {"base": 0}
+    led = ledger or Ledger()
+    outs = []
+    ckdir = None
 
     def attach(s):
-        s.callback = lambda x, i: cb.append((canon(x), int(i)))
+        def callback(x, i):
+            cb.append((canon(x), int(i)))
+            cbrefs.append(x)
+            led.give("callback-arg", x, canon)
+        s.callback = callback
         orig = s.tune
 
         def tune(skip_len, update_count):
@@ -267,36 +353,62 @@ def run_exp(W, name, x0, ops, seed, variant="mem"):
         s.tune = tune
         return s
 
+    def hand_out(s, after):
+        led.recheck(after)
+        G = s.get_samples() if len(s._samples) else None
+        outs.append(G)
+        if G is not None:
+            led.give("get_samples", G, rd_samples)
+        led.give("get_state", s.get_state(), rd_state)
+        for k, L in s.get_history()["history"].items():
+            led.give("get_history", L, rd_list, prefix=True)
+        if scribble and G is not None:
+            scribble_samples(s.get_samples())
+
     s = attach(W.make_exp(name, x0))
     pos, last_resume = 0, 0
-    for op in ops:
-        if op[0] == "S":
-            with stream, quiet():
-                s.sample(op[1])
-            pos += op[1]
-        elif op[0] == "W":
-            st["base"] = len(s._samples) if s._is_initialized else 0
-            with stream, quiet():
-                s.warmup(op[1], op[2] / op[3])
-            pos += op[1]
-        else:
-            fresh = attach(W.make_exp(name, x0))
-            if variant == "file":
-                d = tmp_dir()
-                try:
-                    path = os.path.join(d, "ckpt.pkl")
+    try:
+        for op in ops:
+            if op[0] == "S":
+                with stream, quiet():
+                    s.sample(op[1])
+                pos += op[1]
+            elif op[0] == "W":
+                st["base"] = len(s._samples) if s._is_initialized else 0
+                with stream, quiet():
+                    s.warmup(op[1], op[2] / op[3])
+                pos += op[1]
+            else:
+                fresh = attach(W.make_exp(name, x0))
+                if variant == "file":
+                    ckdir = ckdir or tmp_dir()
+                    path = os.path.join(ckdir, "ckpt_%d.pkl" % pos)
                     s.save_checkpoint(path)
+                    led.give("checkpoint-file", path, rd_file)
                     with ScriptedRandom(seed + 7919), quiet():
                         fresh.load_checkpoint(path)
-                finally:
-                    shutil.rmtree(d, ignore_errors=True)
-            else:
-                payload = copy.deepcopy(s.get_state())
-                with ScriptedRandom(seed + 7919), quiet():
-                    fresh.initialize()
-                fresh.set_state(payload)
-            s = fresh
-            last_resume = pos
+                else:
+                    payload = s.get_state()
+                    led.give("get_state", payload, rd_state)
+                    if variant == "mem":
+                        payload = copy.deepcopy(payload)
+                    with ScriptedRandom(seed + 7919), quiet():
+                        fresh.initialize()
+                    fresh.set_state(payload)
+                s = fresh
+                last_resume = pos
+            hand_out(s, "%s" % (tuple(op),))
+        led.recheck("the last operation")
+        if len(s._samples):
+            with quiet():
+                s.get_samples()                # a second get_samples must not disturb the first
+            led.recheck("a second get_samples()")
+        outs_now = [cols(G) for G in outs]
+        cb_now = [(canon(x), i) for x, (_, i) in zip(cbrefs, cb)]
+        file_ok = True
+    finally:
+        if ckdir:
+            shutil.rmtree(ckdir, ignore_errors=True)
     smp = [canon(x) for x in s._samples]
     gs_ok = True
     if smp:
@@ -304,7 +416,8 @@ def run_exp(W, name, x0, ops, seed, variant="mem"):
         arr = np.asarray(G.samples)
         gs_ok = (arr.shape[-1] == len(smp) and G.Ns == len(smp)
                  and all(canon(arr[..., k]) == smp[k] for k in range(len(smp))))
-    return {"smp": smp, "nacc": len(s._acc), "cb": list(cb), "tunes": list(tunes), "last_resume": last_resume,
+    return {"smp": smp, "nacc": len(s._acc), "cb": list(cb), "cb_now": cb_now, "outs_now": outs_now, "tunes": list(tunes),
+            "last_resume": last_resume, "handout": led.bad, "ledger": led,
             "state": {k: canon_val(v) for k, v in sorted(s.get_state()["state"].items())},
             "draws": stream.draws(), "gs_ok": gs_ok, "init": canon(s.initial_point), "sampler": s}
 
@@ -350,32 +463,66 @@ def exp_check(ref, obs, ops):
         return ("resume" if has_r else "split", "state payload differs from the uninterrupted run in %s" % bad)
     if obs["draws"] != ref["draws"]:
         return ("resume" if has_r else "split", "the random stream is consumed differently (%d vs %d draws)" % (len(obs["draws"]), len(ref["draws"])))
+    if obs.get("handout"):
+        return ("handout:" + obs["handout"][0], obs["handout"][1])
+    # what get_samples() handed out after operation j, re-read at the end, is the chain recorded up to then
+    chain, k, base = ref["smp"], 0, 0
+    for j, o in enumerate(ops):
+        if o[0] == "R":
+            base = k
+        else:
+            k += o[1]
+        if obs["outs_now"][j] != chain[base:k]:
+            return ("handout:get_samples", "the chain handed out by get_samples() after operation %d (%s), re-read at the end, is not the chain "
+                    "recorded up to that operation" % (j, (tuple(o),)))
     return None
 
 
-def run_legacy(W, name, x0, N, Nb, seed):
+def run_legacy(W, name, x0, N, Nb, seed, scribble=False):
+    """sample(N, Nb) [or sample_adapt], then -- on the same sampler object -- a second call sample(2, 1); everything
+    handed out by the first call (returned chain, callback arguments) is re-read after the second one"""
     cls, tkey, kw, method, refkind = W.leg[name]
-    cb, chain = [], []
+    cb, cbrefs, chain = [], [], []
+    led = Ledger()
+    phase = {"n": 1}
     s = W.make_leg(name, x0)
-    s.callback = lambda x, i: cb.append((canon(x), int(i)))
+
+    def callback(x, i):
+        if phase["n"] == 1:
+            cb.append((canon(x), int(i)))
+            cbrefs.append(x)
+            led.give("callback-arg", x, canon)
+    s.callback = callback
     if refkind == "single_update":
         orig = s.single_update
 
         def su(*a, **k):
             r = orig(*a, **k)
-            chain.append(canon(r[0]))
+            if phase["n"] == 1:
+                chain.append(canon(r[0]))
             return r
         s.single_update = su
+    stream = Stream(seed)
     try:
-        with Stream(seed), quiet():
+        with stream, quiet():
             R = getattr(s, method)(N, Nb)
     except Exception as e:
         return {"error": "%s: %s" % (type(e).__name__, e)}
-    if hasattr(R, "samples"):
-        arr = np.asarray(R.samples)
-        smp = [canon(arr[:, k]) for k in range(arr.shape[1])]
-    else:
-        smp = [canon(R)]
+    smp = cols(R)
+    led.give("returned-chain", R, rd_samples)
+    if scribble:
+        scribble_samples(R)
+    phase["n"] = 2
+    try:
+        with stream, quiet():
+            R2nd = s.sample(2, 1)
+        second = cols(R2nd)
+    except Exception as e:
+        second = ["second call raised %s: %s" % (type(e).__name__, e)]
+    if not scribble:
+        led.recheck("a second sample() call on the same sampler")
+    smp_now = cols(R)
+    cb_now = [(canon(x), i) for x, (_, i) in zip(cbrefs, cb)]
     full = None
     if refkind == "single_update":
         full = [canon(np.array(x0, dtype=float))] + chain
@@ -388,12 +535,9 @@ def run_legacy(W, name, x0, N, Nb, seed):
         else:
             with Stream(seed), quiet():
                 R2 = getattr(s2, method)(N + Nb, 0)
-        if hasattr(R2, "samples"):
-            a2 = np.asarray(R2.samples)
-            full = [canon(a2[:, k]) for k in range(a2.shape[1])]
-        else:
-            full = [canon(R2)]
-    return {"smp": smp, "cb": list(cb), "full": full, "x0": canon(np.array(x0, dtype=float))}
+        full = cols(R2)
+    return {"smp": smp, "smp_now": smp_now, "cb": list(cb), "cb_now": cb_now, "full": full, "second": second,
+            "handout": led.bad, "x0": canon(np.array(x0, dtype=float))}
 
 
 def legacy_check(obs, N, Nb):
@@ -414,42 +558,69 @@ def legacy_check(obs, N, Nb):
     for i, (a, b) in enumerate(zip(obs["cb"], ecb)):
         if a != b:
             return ("callback", "callback %d received (%s, %d), expected (%s, %d)" % (i, fl(a[0]), a[1], fl(b[0]), b[1]))
+    if obs.get("handout"):
+        return ("handout:" + obs["handout"][0], obs["handout"][1])
     return None
 
 
-def joint_bytes(d, names, k):
-    return b"".join(canon(np.asarray(d[n])[:, k]) for n in names)
+def joint_cols(D, names):
+    """joint states (one per stored sample) of a dict of arrays / Samples"""
+    if D is None:
+        return []
+    arrs = [np.asarray(D[n].samples if hasattr(D[n], "samples") else D[n], dtype=np.float64) for n in names]
+    ns = arrs[0].shape[-1] if arrs[0].ndim > 1 else 1
+    return [b"".join(canon(a[..., k]) for a in arrs) for k in range(ns)]
 
 
-def run_gibbs(W, calls, nb, seed):
-    """legacy Gibbs: sample(calls[0], nb); sample(calls[1]); ...  -> stored chain, warm-up chain, lengths returned"""
+def run_gibbs(W, calls, nb, seed, scribble=False):
+    """legacy Gibbs: sample(calls[0], nb); sample(calls[1]); ...  -> stored chain, warm-up chain, lengths returned.
+    Every returned dict of Samples is kept and re-read after every later call (or, with scribble, overwritten by
+    the user right after it was returned)."""
     g = W.make_gibbs("Gibbs")
-    lens = []
+    led = Ledger()
+    lens, outs = [], []
     warm = None
     with Stream(seed), quiet():
         for i, n in enumerate(calls):
             R = g.sample(n, nb) if i == 0 else g.sample(n)
+            if not scribble:
+                led.recheck("sample call %d" % i)
+                led.give("returned-chain", R, rd_dict)
+            outs.append(R)
             lens.append(sorted(set(int(v.samples.shape[-1]) for v in R.values())))
             if i == 0:
-                warm = [joint_bytes(g.samples_warmup, g.par_names, k) for k in range(nb)]
-    smp = [joint_bytes(g.samples, g.par_names, k) for k in range(g.samples[g.par_names[0]].shape[1])]
-    return {"smp": smp, "warm": warm, "lens": lens}
+                warm = joint_cols(g.samples_warmup, g.par_names) if nb else []
+            if scribble and i < len(calls) - 1:
+                scribble_samples(R)
+    names = g.par_names
+    return {"smp": joint_cols(outs[-1], names), "warm": warm, "lens": lens, "handout": led.bad,
+            "outs_now": [joint_cols(R, names) for R in outs]}
 
 
-def run_hybrid(W, name, ops, seed):
+def run_hybrid(W, name, ops, seed, scribble=False):
+    led = Ledger()
+    outs = []
     with Stream(seed), quiet():
         h = W.make_hybrid(name)
+        names = h.par_names
         for o in ops:
             if o[0] == "S":
                 h.sample(o[1])
             else:
                 h.warmup(o[1], o[2] / o[3])
-    names = h.par_names
+            led.recheck("%s" % (tuple(o),))
+            G = h.get_samples() if len(h.samples[names[0]]) else None
+            outs.append(G)
+            if G is not None:
+                led.give("get_samples", G, rd_dict)
+                if scribble:
+                    scribble_samples(h.get_samples())
+        led.recheck("the last operation")
     ns = len(h.samples[names[0]])
     smp = [b"".join(canon(h.samples[n][k]) for n in names) for k in range(ns)]
     G = h.get_samples()
-    gs_ok = all(np.asarray(G[n].samples).shape[-1] == ns for n in names)
-    return {"smp": smp, "gs_ok": gs_ok}
+    gs_ok = all(np.asarray(G[n].samples).shape[-1] == ns for n in names) and joint_cols(G, names) == smp
+    return {"smp": smp, "gs_ok": gs_ok, "handout": led.bad, "outs_now": [joint_cols(R, names) for R in outs]}
 
 
 def attrs_snapshot(s):
@@ -464,14 +635,17 @@ def attrs_snapshot(s):
 def run_reinit(W, name, x0, prefix, K, seed):
     """A: history `prefix`, then reinitialize and sample K; B: a fresh sampler initialised and sampling K -- both under
     the same stream"""
-    a = run_exp(W, name, x0, prefix, seed)["sampler"]
+    pre = run_exp(W, name, x0, prefix, seed)
+    a, led = pre["sampler"], pre["ledger"]
     cb = []
     a.callback = lambda x, i: cb.append((canon(x), int(i)))
     with Stream(seed + 31), quiet():
         a.reinitialize()
+        led.recheck("reinitialize()")
         cfgA = attrs_snapshot(a)
         histA = (len(a._samples), len(a._acc))
         a.sample(K)
+        led.recheck("sampling after reinitialize()")
     b = W.make_exp(name, x0)
     with Stream(seed + 31), quiet():
         b.initialize()
@@ -479,7 +653,7 @@ def run_reinit(W, name, x0, prefix, K, seed):
         b.sample(K)
     diff = sorted(k for k in set(cfgA) | set(cfgB) if cfgA.get(k) != cfgB.get(k))
     return {"smpA": [canon(x) for x in a._samples], "smpB": [canon(x) for x in b._samples], "cb": list(cb), "nacc": len(a._acc),
-            "cfg_diff": diff, "hist": histA, "initB": canon(b.initial_point),
+            "cfg_diff": diff, "hist": histA, "initB": canon(b.initial_point), "handout": led.bad,
             "detail": {k: (cfgA.get(k), cfgB.get(k)) for k in diff}}
 
 
@@ -494,6 +668,7 @@ def exp_case(W, cache, name, x0, ops, seed, variant):
         ids = Ids()
         ref = run_exp(W, name, x0, nops, seed)
         ref.pop("sampler")
+        ref.pop("ledger")
         ref["ids"] = ids
         ref["ref_ids"] = [ids(ref["init"])] + [ids(b) for b in ref["smp"]]
         cache[key] = ref
@@ -506,23 +681,31 @@ def exp_case(W, cache, name, x0, ops, seed, variant):
         return Case(expr="false", meta=meta, cell="exp/%s/error" % cls, impl_fail="operation sequence raised %s: %s" % (type(e).__name__, e),
                     signature="%s.run|%s" % (cls, name.split("/", 1)[-1]))
     obs.pop("sampler")
+    obs.pop("ledger")
     bad = exp_check(ref, obs, ops)
+    scribble = variant.endswith("+scribble")
     has_r = any(o[0] == "R" for o in ops)
     has_w = any(o[0] == "W" for o in ops)
     nS = sum(1 for o in ops if o[0] == "S")
-    cell = "exp/%s/%s%s" % (cls, "resume-" + variant if has_r else ("split" if nS > 1 else "single"), "+warmup" if has_w else "")
-    expr = "check_exp %s %s %s %s %s %s && %s" % (
+    cell = "exp/%s/%s%s" % (cls, "resume-" + variant if has_r else (("split" if nS > 1 else "single") + ("+scribble" if scribble else "")),
+                            "+warmup" if has_w else "")
+    # the model is compared with what is RE-READ, after all operations, from the objects handed out earlier
+    expr = "check_exp %s %s %s %s %s %s && check_outputs %s %s %s && %s" % (
         czvec(ref["ref_ids"]), coq_ops(ops), czvec([ids(b) for b in obs["smp"]]), cnat(obs["nacc"]),
-        coq_cb([(ids(b), i) for b, i in obs["cb"]]), coq_tunes(obs["tunes"]),
+        coq_cb([(ids(b), i) for b, i in obs["cb_now"]]), coq_tunes(obs["tunes"]),
+        czvec(ref["ref_ids"]), coq_ops(ops), coq_ll(obs["outs_now"], ids),
         cbool(obs["state"] == ref["state"] and obs["draws"] == ref["draws"] and obs["gs_ok"]))
     sig = ""
     if bad:
-        sig = "%s.%s|%s" % (cls, bad[0], name.split("/", 1)[1] if "/" in name else "default")
+        kind = bad[0]
+        if scribble and not kind.startswith("handout"):
+            kind = "scribble"          # the twin without the user's write is a case of its own
+        sig = "%s.%s|%s" % (cls, kind, name.split("/", 1)[1] if "/" in name else "default")
         if name == "RegularizedLinearRTO/stepsize=automatic" and bad[0] in ("split", "resume"):
             sig = SIG_RTO       # two sampler objects never agree bit for bit in this configuration class
     frozen = len(set(ref["smp"])) < 3 and total(ops) >= 3        # a chain that never moves tests nothing
-    return Case(expr=expr, meta=meta, cell=cell, trivial=(not has_r and nS <= 1 and not has_w) or frozen,
-                kind="DECISION", impl_fail=("%s %s: %s" % (name, ops, bad[1])) if bad else None, signature=sig)
+    return Case(expr=expr, meta=meta, cell=cell, trivial=(not has_r and nS <= 1 and not has_w and not scribble) or frozen,
+                kind="DECISION", impl_fail=("%s %s [%s]: %s" % (name, ops, variant, bad[1])) if bad else None, signature=sig)
 
 
 def legacy_case(W, name, x0, N, Nb, seed, aliased):
@@ -536,58 +719,95 @@ def legacy_case(W, name, x0, N, Nb, seed, aliased):
     ids = Ids()
     ref_ids = [ids(b) for b in obs["full"]]
     bad = legacy_check(obs, N, Nb)
+    if not bad and (N + Nb) % 2 == 0:
+        # converse: the user writes into the returned chain; the next call on the same sampler must not notice
+        tw = run_legacy(W, name, x0, N, Nb, seed, scribble=True)
+        if tw.get("second") != obs["second"]:
+            bad = ("scribble", "after the user wrote into the returned chain, the next sample() call returns a different chain")
     sig = ""
     if bad:
-        if cls == "CWMH" and bad[0] == "record":
-            sig = SIG_CWMH
+        if cls == "CWMH" and bad[0] in ("record", "handout:callback-arg"):
+            sig = SIG_CWMH      # one root cause: single_update writes into the view of the stored chain it is given
         elif cls == "MH" and method == "sample_adapt" and bad[0] == "callback" and not obs["cb"]:
             sig = SIG_MHCB
         else:
             sig = "legacy.%s._%s|%s" % (cls, method, bad[0])
+    # re-read values go to the model; in an aliased loop the view the callback received is overwritten by the next
+    # transition (that IS the aliasing finding), so there the model's callback clause is compared with the call-time value
+    cbv = obs["cb"] if aliased else obs["cb_now"]
     expr = "check_legacy %s %s %s %s %s %s" % (czvec(ref_ids), cbool(aliased), cnat(N), cnat(Nb),
-                                               czvec([ids(b) for b in obs["smp"]]), coq_cb([(ids(b), i) for b, i in obs["cb"]]))
+                                               czvec([ids(b) for b in obs["smp_now"]]), coq_cb([(ids(b), i) for b, i in cbv]))
     return Case(expr=expr, meta=meta, cell="legacy/%s/%s%s" % (cls, method, "/Nb=0" if Nb == 0 else "/Nb>0"), trivial=False,
                 kind="DECISION", impl_fail=("%s %s(N=%d, Nb=%d): %s" % (name, method, N, Nb, bad[1])) if bad else None, signature=sig)
 
 
-def gibbs_case(W, calls, nb, seed):
-    meta = {"kind": "gibbs", "calls": calls, "Nb": nb, "seed": seed}
+def gibbs_case(W, calls, nb, seed, scribble=False):
+    meta = {"kind": "gibbs", "calls": calls, "Nb": nb, "seed": seed, "scribble": scribble}
     ref = run_gibbs(W, [sum(calls)], nb, seed)
-    obs = run_gibbs(W, calls, nb, seed)
+    obs = run_gibbs(W, calls, nb, seed, scribble=scribble)
     ids = Ids()
     ref_ids = [ids(b"init")] + [ids(b) for b in ref["warm"]] + [ids(b) for b in ref["smp"]]
-    bad = None
+    bad, sig = None, ""
     cum = [[sum(calls[:i + 1])] for i in range(len(calls))]
     if obs["smp"] != ref["smp"]:
         k = next((i for i, (a, b) in enumerate(zip(obs["smp"], ref["smp"])) if a != b), min(len(obs["smp"]), len(ref["smp"])))
-        bad = "chain of repeated calls %s differs from one call at stored index %d" % (calls, k)
+        if scribble:
+            bad = ("after the user wrote into the chains returned by earlier calls, the chain returned by the last of the calls %s "
+                   "differs from the chain of one call at index %d: the returned Samples wrap the sampler's own storage" % (calls, k))
+            sig = SIG_GIBBS_LIVE
+        else:
+            bad, sig = "chain of repeated calls %s differs from one call at stored index %d" % (calls, k), "legacy.Gibbs.sample|continuation"
     elif obs["warm"] != ref["warm"]:
-        bad = "warm-up chains differ"
+        bad, sig = "warm-up chains differ", "legacy.Gibbs.sample|continuation"
     elif obs["lens"] != cum:
-        bad = "returned chain lengths %s, expected %s" % (obs["lens"], cum)
-    expr = "check_gibbs %s %s %s %s && %s" % (czvec(ref_ids), cnat(nb), clist([cnat(c) for c in calls]),
-                                              czvec([ids(b) for b in obs["smp"]]), cbool(obs["lens"] == cum and obs["warm"] == ref["warm"]))
-    return Case(expr=expr, meta=meta, cell="gibbs/legacy/%s" % ("single" if len(calls) == 1 else "continued"), trivial=len(calls) == 1,
-                kind="DECISION", impl_fail=bad, signature="legacy.Gibbs.sample|continuation" if bad else "")
+        bad, sig = "returned chain lengths %s, expected %s" % (obs["lens"], cum), "legacy.Gibbs.sample|continuation"
+    elif obs["handout"]:
+        bad, sig = "calls %s, Nb=%d: %s" % (calls, nb, obs["handout"][1]), "legacy.Gibbs.sample|handout:" + obs["handout"][0]
+    elif not scribble and any(o != ref["smp"][:c[0]] for o, c in zip(obs["outs_now"], cum)):
+        bad, sig = "calls %s: a chain returned by an earlier call, re-read at the end, is not a prefix of the chain of one call" % (calls,), \
+            "legacy.Gibbs.sample|handout:returned-chain"
+    if scribble:
+        expr = "check_gibbs %s %s %s %s" % (czvec(ref_ids), cnat(nb), clist([cnat(c) for c in calls]), czvec([ids(b) for b in obs["smp"]]))
+    else:
+        expr = "check_gibbs %s %s %s %s && check_gibbs_outputs %s %s %s %s && %s" % (
+            czvec(ref_ids), cnat(nb), clist([cnat(c) for c in calls]), czvec([ids(b) for b in obs["smp"]]),
+            czvec(ref_ids), cnat(nb), clist([cnat(c) for c in calls]), coq_ll(obs["outs_now"], ids),
+            cbool(obs["lens"] == cum and obs["warm"] == ref["warm"]))
+    return Case(expr=expr, meta=meta, cell="gibbs/legacy/%s" % ("scribble" if scribble else "single" if len(calls) == 1 else "continued"),
+                trivial=len(calls) == 1, kind="DECISION", impl_fail=bad, signature=sig)
 
 
-def hybrid_case(W, name, ops, seed):
-    meta = {"kind": "hybrid", "config": name, "ops": [list(o) for o in ops], "seed": seed}
+def hybrid_case(W, name, ops, seed, scribble=False):
+    meta = {"kind": "hybrid", "config": name, "ops": [list(o) for o in ops], "seed": seed, "scribble": scribble}
     ref = run_hybrid(W, name, normalize(ops), seed)
-    obs = run_hybrid(W, name, ops, seed)
+    obs = run_hybrid(W, name, ops, seed, scribble=scribble)
     ids = Ids()
     ref_ids = [ids(b"init")] + [ids(b) for b in ref["smp"]]
-    bad = None
+    bad, kind = None, "split"
     if obs["smp"] != ref["smp"]:
         k = next((i for i, (a, b) in enumerate(zip(obs["smp"], ref["smp"])) if a != b), min(len(obs["smp"]), len(ref["smp"])))
         bad = "%s %s: chain differs from the unsplit run at stored index %d (%d vs %d entries)" % (name, ops, k, len(obs["smp"]), len(ref["smp"]))
+        kind = "scribble" if scribble else "split"
     elif not obs["gs_ok"]:
-        bad = "get_samples() length differs from the recorded chain"
-    expr = "check_gibbs %s %s %s %s && %s" % (czvec(ref_ids), cnat(0), clist([cnat(o[1]) for o in ops]),
-                                              czvec([ids(b) for b in obs["smp"]]), cbool(obs["gs_ok"]))
+        bad = "get_samples() differs from the recorded chain"
+    elif obs["handout"]:
+        bad, kind = "%s %s: %s" % (name, ops, obs["handout"][1]), "handout:" + obs["handout"][0]
+    else:
+        k = 0
+        for j, o in enumerate(ops):
+            k += o[1]
+            if obs["outs_now"][j] != ref["smp"][:k]:
+                bad, kind = "%s %s: the chain handed out by get_samples() after operation %d is not the first %d states of the unsplit run" % (
+                    name, ops, j, k), "handout:get_samples"
+                break
+    sizes = clist([cnat(o[1]) for o in ops])
+    expr = "check_gibbs %s %s %s %s && check_gibbs_outputs %s %s %s %s && %s" % (
+        czvec(ref_ids), cnat(0), sizes, czvec([ids(b) for b in obs["smp"]]),
+        czvec(ref_ids), cnat(0), sizes, coq_ll(obs["outs_now"], ids), cbool(obs["gs_ok"]))
     nS = sum(1 for o in ops if o[0] == "S")
-    return Case(expr=expr, meta=meta, cell="gibbs/%s/%s" % (name, "split" if nS > 1 else "single"), trivial=nS <= 1, kind="DECISION",
-                impl_fail=bad, signature="HybridGibbs.split|%s" % name.split("/", 1)[1] if bad else "")
+    return Case(expr=expr, meta=meta, cell="gibbs/%s/%s" % (name, "scribble" if scribble else "split" if nS > 1 else "single"),
+                trivial=nS <= 1 and not scribble, kind="DECISION",
+                impl_fail=bad, signature="HybridGibbs.%s|%s" % (kind, name.split("/", 1)[1]) if bad else "")
 
 
 def burn_cases(W, name, x0, ops, seed, grid):
@@ -645,8 +865,10 @@ def reinit_case(W, name, x0, prefix, K, seed):
         bad, sig = "chain after reinitialize differs from the chain of a fresh sampler under the same stream", "%s.reinitialize|chain" % cls
         if name == "RegularizedLinearRTO/stepsize=automatic":
             sig = SIG_RTO
+    elif r["handout"]:
+        bad, sig = "%s, history %s, then reinitialize: %s" % (name, prefix, r["handout"][1]), "%s.reinitialize|handout:%s" % (cls, r["handout"][0])
     expr = "check_exp %s %s %s %s %s [] && %s" % (czvec(ref_ids), coq_ops([("S", K)]), czvec([ids(b) for b in r["smpA"]]), cnat(r["nacc"]),
-                                                  coq_cb([(ids(b), i) for b, i in r["cb"]]), cbool(not r["cfg_diff"] and r["hist"] == (0, 1)))
+                                                  coq_cb([(ids(b), i) for b, i in r["cb"]]), cbool(not r["cfg_diff"] and r["hist"] == (0, 1) and not r["handout"]))
     return Case(expr=expr, meta=meta, cell="reinit/%s" % cls, trivial=False, kind="DECISION", impl_fail=bad, signature=sig)
 
 
@@ -689,7 +911,15 @@ def footprint_stage(ctx, known):
         rs = TR.footprint_reasons(f)
         if rs and all(r.startswith("hidden-random-outside-state:") for r in rs):
             excuses[c] = [r.split(":", 1)[1] for r in rs]
-    src, n = TR.render(exp, leg, excuses)
+    try:
+        stores = TR.extract_slice_stores(ctx.repo)
+    except Exception as e:
+        stores = ["translator error: %s" % type(e).__name__]
+        failed.append("tr_footprint.extract_slice_stores rejected the source: %r" % (e,))
+    for x in stores:
+        failed.append("in-place whole-array store / augmented assignment through an array the function did not create (it may be a view of a "
+                      "recorded or returned chain): " + x)
+    src, n = TR.render(exp, leg, excuses, stores)
     os.makedirs(GEN, exist_ok=True)
     # the registered run (against /repo) owns coq/gen/Gen_C14.v; runs against scratch copies use a private file
     path = os.path.join(GEN, "Gen_C14.v" if os.path.abspath(ctx.repo) == "/repo" else "Gen_C14_%d.v" % os.getpid())
@@ -762,6 +992,9 @@ def exp_ops_lattice(ctx, rng, warm_capable=True):
         out.append(([("S", k), ("R",), ("S", N - k)], "mem"))
     for k in sorted(set([0, 1, N // 2, N])):
         out.append(([("S", k), ("R",), ("S", N - k)], "file"))
+        out.append(([("S", k), ("R",), ("S", N - k)], "live"))
+    for k in sorted(set([1, N // 2])):
+        out.append(([("S", k), ("S", N - k)], "mem+scribble"))
     Nw = ctx.n(6, 20)
     warm = [("W", 5, 1, 4)] if not ctx.thorough else [("W", 5, 1, 4), ("W", 12, 1, 10), ("W", 20, 1, 2)]
     for w in warm:
@@ -771,7 +1004,7 @@ def exp_ops_lattice(ctx, rng, warm_capable=True):
     for _ in range(ctx.n(2, 8)):
         a, b, c = rng.randint(0, 4), rng.randint(1, 4), rng.randint(1, 4)
         out.append(([("S", a), ("S", b), ("S", c)], "mem"))
-        out.append(([("S", a), ("R",), ("S", b), ("R",), ("S", c)], "mem"))
+        out.append(([("S", a), ("R",), ("S", b), ("R",), ("S", c)], rng.choice(["mem", "live", "file"])))
         out.append(([("W", rng.randint(1, 6), 1, rng.choice([1, 2, 10])), ("S", a), ("R",), ("S", b), ("S", c)], "mem"))
     out.append(([("S", N)], "mem"))
     return out
@@ -821,6 +1054,8 @@ def gen_cases(ctx, rng, thorough_sizes=None):
         for calls in ([[4], [1, 3], [2, 2], [3, 1], [1, 1, 2], [2, 1, 1]] if not ctx.thorough else
                       [[8]] + [[k, 8 - k] for k in range(1, 8)] + [[1, 1, 2], [2, 1, 1], [3, 2, 3], [1, 1, 1, 1, 1]]):
             cases.append(gibbs_case(W, calls, nb, rng.randint(1, 10 ** 6)))
+        for calls in ([2, 2], [1, 2, 1]):
+            cases.append(gibbs_case(W, calls, nb, rng.randint(1, 10 ** 6), scribble=True))
     for name in ("HybridGibbs/RTO+Conjugate", "HybridGibbs/NUTS+MH+Conjugate"):
         N = ctx.n(5, 12)
         for w in ([], [("W", 3, 1, 4)]):
@@ -828,6 +1063,7 @@ def gen_cases(ctx, rng, thorough_sizes=None):
             for k in range(N + 1):
                 cases.append(hybrid_case(W, name, w + [("S", k), ("S", N - k)], seed))
             cases.append(hybrid_case(W, name, w + [("S", 1), ("S", 2), ("S", 1)], seed))
+            cases.append(hybrid_case(W, name, w + [("S", 2), ("S", 2)], seed, scribble=True))
     return cases
 
 
@@ -865,9 +1101,9 @@ def _rerun(ctx, m):
         aliased = bool(lf.get(cls.__name__, {}).get("_" + method, {}).get("argmut"))
         return legacy_case(W, m["config"], m["x0"], m["N"], m["Nb"], m["seed"], aliased)
     if k == "gibbs":
-        return gibbs_case(W, m["calls"], m["Nb"], m["seed"])
+        return gibbs_case(W, m["calls"], m["Nb"], m["seed"], scribble=m.get("scribble", False))
     if k == "hybrid":
-        return hybrid_case(W, m["config"], [tuple(o) for o in m["ops"]], m["seed"])
+        return hybrid_case(W, m["config"], [tuple(o) for o in m["ops"]], m["seed"], scribble=m.get("scribble", False))
     if k == "burn":
         cs = burn_cases(W, m["config"], m["x0"], [tuple(o) for o in m["ops"]], m["seed"], [(m["Nb"], m["Nt"])])
         return cs[0]
@@ -927,6 +1163,9 @@ def known_witnesses(ctx):
     out[SIG_RTO] = (bool(c.impl_fail) or differs,
                     (c.impl_fail or "") + ("; freshly initialised samplers of the same configuration hold _stepsize values %s" % sorted(set(vals))
                                            if differs else ""))
+    # legacy Gibbs hands out its own storage: a user's write into a returned chain changes the continuation
+    c = gibbs_case(W, [2, 2], 1, 15, scribble=True)
+    out[SIG_GIBBS_LIVE] = (c.signature == SIG_GIBBS_LIVE, c.impl_fail or "a write into the returned chains does not reach the sampler")
     # NUTS.reinitialize resets max_depth to the default
     c = reinit_case(W, "NUTS/step_size=0.3,max_depth=2", [0.5, -0.25], [("S", 2)], 3, 14)
     out[SIG_NUTS] = (c.signature == SIG_NUTS, c.impl_fail or "max_depth kept")
